@@ -221,27 +221,43 @@ theorem hmtx_read_write (ext : Ext) (numberOfHMetrics numGlyphs : Nat) (o : Obj)
 open FontVerif.Gen.WriteProgs in
 /-- GPOS `BaseArray` (computed-size records + an external argument): for **every** `mark_class_count` the parent
 `MarkBasePosFormat1` passes down, every value whose base records all have exactly `mark_class_count` anchor offsets
-(the hypothesis the generated writer does not establish) reads back: the count, and every record with every offset -/
+(the hypothesis the generated writer does not establish) and — if there are records at all — at least one mark class
+(a `ComputedArray` of zero-sized records reads back empty) reads back: the count, and every record with every offset -/
 theorem base_array_read_write (ext : Ext) (markClassCount : Nat) (o : Obj) (bytes rest : Bytes) (view : View)
     (hrec : ∀ xs, o.get 1 = .arr xs → ∀ x ∈ xs, x.length = markClassCount)
+    (hsz : ∀ xs, o.get 1 = .arr xs → xs ≠ [] → 0 < markClassCount)
     (he : emit ext o gpos_BaseArray_w [(argBase, .num markClassCount)] = some (bytes, view)) :
     parse gpos_BaseArray_r [(argBase, .num markClassCount)] (bytes ++ rest) = some (view, rest) := by
   have h0 := emit_numAt_arg ext o _ _ bytes view argBase he (by decide)
-  refine read_write_args ext gpos_BaseArray_assumes _ _ o _ bytes rest view gpos_BaseArray_compat_under ?_ he
-    (fun h => absurd h (by decide))
-  intro x hx
-  simp only [gpos_BaseArray_assumes, List.mem_cons, List.mem_nil_iff, or_false] at hx
-  subst hx
-  intro xs hxs y hy
-  rw [hrec xs hxs y hy]
   have hl : ∀ n, (repGroup n [2]).length = n := by
     intro n
     induction n with
     | zero => rfl
     | succ k ih => simp [repGroup, ih]
-  simp only [evalSegs, NExpr.eval, List.append_nil, hl]
-  rw [show (1000 : Nat) = argBase from rfl, h0]
-  simp [numAt, List.lookup]
+  have hs : ∀ n, elemSize (repGroup n [2]) = 2 * n := by
+    intro n
+    induction n with
+    | zero => rfl
+    | succ k ih =>
+      simp only [repGroup, elemSize, List.cons_append, List.nil_append, List.foldr_cons] at ih ⊢
+      omega
+  have hv : numAt view 1000 = markClassCount := by
+    rw [show (1000 : Nat) = argBase from rfl, h0]
+    simp [numAt, List.lookup]
+  refine read_write_args ext gpos_BaseArray_assumes _ _ o _ bytes rest view gpos_BaseArray_compat_under ?_ he
+    (fun h => absurd h (by decide))
+  intro x hx
+  simp only [gpos_BaseArray_assumes, List.mem_cons, List.mem_nil_iff, or_false] at hx
+  rcases hx with hx | hx
+  · subst hx
+    intro xs hxs y hy
+    rw [hrec xs hxs y hy]
+    simp only [evalSegs, NExpr.eval, List.append_nil, hl, hv]
+  · subst hx
+    intro xs hxs hne
+    have := hsz xs hxs hne
+    simp only [evalSegs, NExpr.eval, List.append_nil, hs, hv]
+    omega
 
 open FontVerif.Gen.WriteProgs in
 /-- `ClassDef` (a format enum): whichever variant is written, the generated reader's `match format` selects the same
@@ -312,7 +328,7 @@ example : (emit (fun _ _ => 0) [(0, .num 1), (1, .num 1), (2, .arr [[8, 2], [655
 /-- a table read with one external argument `n` (id `argBase`): a count, then `count` records of `1 + n` 16-bit
 scalars each (a fixed glyph id followed by `n` offsets) -/
 def exWV : List WF := [⟨0, none, .scalar (.count 1 1 0) 2⟩, ⟨1, none, .arrayV [2] 2 none⟩]
-def exRV : List RF := [⟨0, none, .scalar 2⟩, ⟨1, none, .arrayV (.affine 0 1 0) [(.lit 1, [2]), (.field 1000, [2])]⟩]
+def exRV : List RF := [⟨0, none, .scalar 2⟩, ⟨1, none, .arrayV (.affine 0 1 0) [(.lit 1, [2]), (.field 1000, [2])] false⟩]
 def exAV : List Assume := [.elemLen 1 [(.lit 1, [2]), (.field 1000, [2])]]
 example : compatU exAV exWV exRV = true := by decide
 /-- the hypotheses of `read_write_args` are satisfiable: argument 2, two records of 1 + 2 scalars -/
@@ -341,10 +357,21 @@ reader layout that is not "prefix then tail-width scalars", an element layout th
 example : compatU [] exWV exRV = false := by decide
 example : compatU exAV [⟨0, none, .scalar (.count 1 1 0) 2⟩, ⟨1, none, .arrayV [2] 4 none⟩] exRV = false := by decide
 example : compatU [.elemLen 1 [(.field 1000, [2]), (.lit 1, [4])]] exWV
-    [⟨0, none, .scalar 2⟩, ⟨1, none, .arrayV (.affine 0 1 0) [(.field 1000, [2]), (.lit 1, [4])]⟩] = false := by decide
+    [⟨0, none, .scalar 2⟩, ⟨1, none, .arrayV (.affine 0 1 0) [(.field 1000, [2]), (.lit 1, [4])] false⟩] = false := by decide
 example : compatU [.elemLen 1 [(.field 2, [2])]]
     [⟨0, none, .scalar (.count 1 1 0) 2⟩, ⟨1, none, .arrayV [] 2 none⟩, ⟨2, none, .scalar .field 2⟩]
-    [⟨0, none, .scalar 2⟩, ⟨1, none, .arrayV (.affine 0 1 0) [(.field 2, [2])]⟩, ⟨2, none, .scalar 2⟩] = false := by decide
+    [⟨0, none, .scalar 2⟩, ⟨1, none, .arrayV (.affine 0 1 0) [(.field 2, [2])] false⟩, ⟨2, none, .scalar 2⟩] = false := by decide
+/-- a `ComputedArray` of zero-sized items reads back empty (`ComputedArray::new`: `len = data.len() / item_len`, 0 for a
+zero item length): two records of an empty layout (argument 0) compile to nothing but the count, and the reader returns
+no record — the pair is compatible only under the named hypothesis `elemSized` (known finding "zero-size records",
+here inside the model) -/
+example : parse [⟨0, none, .scalar 2⟩, ⟨1, none, .arrayV (.affine 0 1 0) [(.field 1000, [2])] true⟩] [(1000, .num 0)] [0, 2] =
+    some ([(1, .arr []), (0, .num 2), (1000, .num 0)], []) := by decide
+example : compatU [.elemLen 1 [(.field 1000, [2])]] [⟨0, none, .scalar (.count 1 1 0) 2⟩, ⟨1, none, .arrayV [] 2 none⟩]
+    [⟨0, none, .scalar 2⟩, ⟨1, none, .arrayV (.affine 0 1 0) [(.field 1000, [2])] true⟩] = false := by decide
+example : compatU [.elemLen 1 [(.field 1000, [2])], .elemSized 1 [(.field 1000, [2])]]
+    [⟨0, none, .scalar (.count 1 1 0) 2⟩, ⟨1, none, .arrayV [] 2 none⟩]
+    [⟨0, none, .scalar 2⟩, ⟨1, none, .arrayV (.affine 0 1 0) [(.field 1000, [2])] true⟩] = true := by decide
 /-- count expressions: `transforms::add(n, 1)` of an argument; the hypothesis names the length -/
 example : compatU [.lenIsExpr 0 (.add (.field 1000) (.lit 1))] [⟨0, none, .array [4] none⟩]
     [⟨0, none, .array (.expr (.add (.field 1000) (.lit 1))) [4]⟩] = true := by decide
